@@ -9,6 +9,8 @@ Line-protocol driver for the C06 model (fan-out queue with consumer groups).
       appendwake = Put, whose broadcast wakes the parked call, and the call returns; pausewake = Pause
       (signals) and the call returns). They answer `parked | …`, `<result> | …`, `blocked | …` or
       `not-parked | …`.
+  reopenlazy     (Close ; NewFanOutQueue, no group looked up: answers `ok names=<ids> | q=… | `; until a
+      group is looked up again with `create <g>` its positions are left out of the replies)
   createsync <g> | ackconsume <g> <n>      (lock-granularity races, Model/FanOutConc.lean: a create whose
       meta write is delayed while Sync+GC are called = create; sync; gc — an Ack whose meta write is
       delayed while Consume is called = ack; consume)
@@ -159,9 +161,46 @@ def pstepLine (v : Variant) (ps : PState) (ws : List String) : PState × String 
     let r := stepLine v ps.s ws
     ({ ps with s := r.1 }, r.2)
 
+/-- Driver state: the model state plus the groups the caller has not looked up since the last
+`reopenlazy` (presentation only: their positions are not printed, the implementation side has no
+handle to read them from). -/
+structure DState where
+  ps : PState
+  hidden : List Nat
+
+def hideGroups (hidden : List Nat) (line : String) (s : State) : String :=
+  -- re-render the state part of a reply without the hidden groups
+  match line.splitOn " | " with
+  | [r, _, _] =>
+    let vis : State := { s with live := s.live.filter (fun p => !hidden.contains p.1) }
+    r ++ " | " ++ showState vis
+  | _ => line
+
+def dstepLine (v : Variant) (d : DState) (ws : List String) : DState × String :=
+  match ws with
+  | ["reopenlazy"] =>
+    -- Close ; NewFanOutQueue without looking any group up: the model restores all of them
+    let r := pstepLine v d.ps ["reopen"]
+    let names := sortNat (r.1.s.live.map (·.1))
+    ({ ps := r.1, hidden := names }, s!"ok names={showIds names} | q={r.1.s.q.appended}/{r.1.s.q.ack} | ")
+  | ["reopen"] =>
+    let r := pstepLine v d.ps ws
+    ({ ps := r.1, hidden := [] }, r.2)
+  | ["reset"] => ({ ps := PState.init, hidden := [] }, "ok")
+  | ["create", g] =>
+    match g.toNat? with
+    | some gi =>
+      let hidden := d.hidden.filter (· ≠ gi)
+      let r := pstepLine v d.ps ws
+      ({ ps := r.1, hidden := hidden }, hideGroups hidden r.2 r.1.s)
+    | none => (d, "bad-op")
+  | _ =>
+    let r := pstepLine v d.ps ws
+    ({ d with ps := r.1 }, if d.hidden.isEmpty then r.2 else hideGroups d.hidden r.2 r.1.s)
+
 def main (_args : List String) : IO Unit :=
   match variantOf Generated.C06.newGroupShape with
-  | some v => Proto.runLoop PState.init (pstepLine v)
-  | none => Proto.runLoop PState.init (fun s _ => (s, "bad-op"))
+  | some v => Proto.runLoop ({ ps := PState.init, hidden := [] } : DState) (dstepLine v)
+  | none => Proto.runLoop () (fun s _ => (s, "bad-op"))
 
 end LinVerif.Driver.C06
